@@ -1115,7 +1115,9 @@ class Event(Boolean):
     def _held(self, obj):
         if obj is None:
             return self.default
-        return obj._param__private.values.get(self.name, self.default)
+        # (an instance assigned before Parameterized.__init__ ran has no
+        # values of its own yet)
+        return getattr(obj._param__private, 'values', {}).get(self.name, self.default)
 
     @instance_descriptor
     def __set__(self, obj, val):
